@@ -21,10 +21,12 @@ for p in sorted(glob.glob(os.path.join(d, "*", "patch.diff"))):
             print("%-14s APPLY FAILED %s" % (name, r.stderr[:200])); continue
         fired = []
         env = dict(os.environ, MDX_REPO=tmp)
-        for i in ids:
-            rr = subprocess.run([os.path.join(VERIF, "check"), i], capture_output=True, text=True, env=env)
-            if rr.returncode != 0:
-                fired.append((i, [l.strip() for l in rr.stdout.splitlines() if l.strip().startswith("FAIL") or "ERROR" in l][:4]))
+        import concurrent.futures as cf
+        subprocess.run([sys.executable, os.path.join(VERIF, "engine", "extract.py")], capture_output=True, text=True, env=env)
+        with cf.ThreadPoolExecutor(max_workers=10) as ex:
+            for i, rr in ex.map(lambda i: (i, subprocess.run([os.path.join(VERIF, "check"), i], capture_output=True, text=True, env=env)), ids):
+                if rr.returncode != 0:
+                    fired.append((i, [l.strip() for l in rr.stdout.splitlines() if l.strip().startswith("FAIL") or "ERROR" in l][:4]))
         print("%-14s %s" % (name, "FALSE ALARM in " + ",".join(i for i, _ in fired) if fired else "quiet"))
         for i, ls in fired:
             for l in ls: print("        %s %s" % (i, l[:300]))
